@@ -16,7 +16,8 @@ import vlib, mgr_common as mc
 def gen_cases(ctx, n):
     cases = []
     for i in range(n):
-        c = mc.gen_history(ctx.rng, ["assign", "assign", "assign_flat"][i % 3], nops=ctx.rng.randint(3, 14))
+        c = mc.gen_history(ctx.rng, ["assign", "assign", "assign_flat"][i % 3], nops=ctx.rng.randint(3, 14),
+                           keys=("strings" if i % 2 else None))       # keys that need escaping in the generated source
         # function arguments: leaves that hold no definition at the end of the history
         flat = lambda p: [p[0]] + [s[1] for s in p[1:]]
         defined = set()
